@@ -145,15 +145,35 @@ def deps_tree(case, rng):
     return files
 
 
+def path2(f):
+    return ("d/" if f["dir"] == 1 else "") + f"g{f['name']}.jsonnet"
+
+
+def deps2_tree(case, rng):
+    """two directories: `g2.jsonnet` written in g1.jsonnet and in d/g1.jsonnet names two different files"""
+    files = {}
+    for d in (0, 1):
+        for n in (1, 2, 3):
+            parts = []
+            for e in sorted(case["edges"], key=lambda e: (e["sub"], e["name"], e["kind"])):
+                if e["from"] == {"dir": d, "name": n}:
+                    imp = f"{e['kind']} '{'d/' if e['sub'] else ''}g{e['name']}.jsonnet'"
+                    parts.append(rng.choice(IMPORT_SITES).format(imp=imp))
+            files[path2({"dir": d, "name": n})] = "[" + ", ".join(parts) + "]" if parts else "{leaf: %d}" % (10 * d + n)
+    return files
+
+
 def run(chk):
     thorough = chk.tier == "thorough"
     rng = random.Random(chk.seed)
     rs = run_tlc_many([dict(module="Cli", cfg="MC_Cli_pipeline.cfg", workers=2), dict(module="Cli", cfg="MC_Cli_config.cfg", workers=6),
-                       dict(module="Cli", cfg="MC_Cli_deps.cfg", workers=4), dict(module="Cli", cfg="MC_Cli_callbacks.cfg", workers=1)], parallel=4)
+                       dict(module="Cli", cfg="MC_Cli_deps.cfg", workers=4), dict(module="Cli", cfg="MC_Cli_callbacks.cfg", workers=1),
+                       dict(module="Cli", cfg="MC_Cli_deps2.cfg", workers=4)], parallel=5)
     chk.add_tlc(rs[0], "Cli pipeline: EnteredWhileEvaluating")
     chk.add_tlc(rs[1], "Cli configurations: Translate / Outcome / Render")
     chk.add_tlc(rs[2], "Cli import graphs: Deps")
     chk.add_tlc(rs[3], "Cli C API callbacks: NativeOutcome / ImportOutcome")
+    chk.add_tlc(rs[4], "Cli import graphs over two directories: Deps2 (one import text, two files)")
     cases = rs[1].replay
     rng.shuffle(cases)
     # the plain cases first: every variable flavour with default everything else, then the sample
@@ -419,6 +439,34 @@ def run(chk):
         loaded.discard("f1.jsonnet")
         if not loaded <= got:
             chk.disagree(key, desc, sorted(exp), {"k": "loaded", "listed": sorted(got), "loaded": sorted(loaded)}, "an evaluation loads a file that jrsonnet-deps does not list")
+    # ---- jrsonnet-deps over two directories (every graph of up to four reached import sites)
+    graphs2 = rs[4].replay
+    chk.extra["import_graphs_two_directories"] = len(graphs2)
+
+    def run_deps2(ig):
+        i, g = ig
+        d = os.path.join(work, f"h{i}")
+        files = deps2_tree(g, random.Random(i))
+        shutil.rmtree(d, ignore_errors=True)
+        os.makedirs(os.path.join(d, "d"))
+        for n, t in files.items():
+            open(os.path.join(d, n), "w").write(t)
+        p = subprocess.run([dexe, "g1.jsonnet"], cwd=d, stdout=subprocess.PIPE, stderr=subprocess.PIPE, timeout=60)
+        shutil.rmtree(d, ignore_errors=True)
+        got = {os.path.relpath(l.strip(), os.path.realpath(d)) if os.path.isabs(l.strip()) else os.path.normpath(l.strip()) for l in p.stdout.decode().split("\n") if l.strip()}
+        return files, p.returncode, got, p.stderr.decode()
+    with ThreadPoolExecutor(max_workers=14) as ex:
+        dres2 = list(ex.map(run_deps2, enumerate(graphs2)))
+    for g, (files, rc, got, err) in zip(graphs2, dres2):
+        sig = ",".join(sorted(f"{path2(e['from'])[:-8]}{'i' if e['kind'] == 'import' else 's'}{'d/' if e['sub'] else ''}g{e['name']}" for e in g["edges"]))
+        chk.count(("deps2", sig))
+        key = f"c15:deps2:{sig}"
+        exp = {path2(f) for f in g["deps"]}
+        if rc != 0:
+            chk.disagree(key, {"files": files}, sorted(exp), {"k": "exit", "rc": rc, "stderr": err[-300:]}, "jrsonnet-deps fails on a tree whose files all exist and parse")
+        elif got - {"g1.jsonnet"} != exp - {"g1.jsonnet"}:
+            chk.disagree(key, {"files": files}, sorted(exp), {"k": "deps", "listed": sorted(got)},
+                         "jrsonnet-deps does not list exactly the files reachable through imports (two directories)")
     shutil.rmtree(work, ignore_errors=True)
     chk.sample({"config": cases[len(cases) // 2]["c"], "argv": argv_of(cases[len(cases) // 2]["c"])})
     chk.assumptions += ["right-most -J wins (jsonnet command line convention); JSONNET_PATH is left to C07",
